@@ -186,12 +186,18 @@ def run(tier):
     for ci in range(len(curves)):
         if only and curves[ci].name not in only:
             continue
+        vs = sorted(exes)
         for oi in range(len(ORDERS)):
-            for v in sorted(exes):
-                jobs.append({"ci": ci, "oi": oi, "tier": tier, "vname": v, "exe": exes[v], "meta": meta[v]})
+            for v in vs:
+                if v.startswith("d8-") and curves[ci].bits > 256:
+                    continue          # 8-bit digits cost ~25x; see variant_restrictions
+                jobs.append({"ci": ci, "oi": oi, "tier": tier, "vname": v, "exe": exes[v], "meta": meta[v],
+                             "fault": v == vs[(ci + 3 * oi) % len(vs)]})
     jobs.sort(key=lambda j: -curves[j["ci"]].bits)
     for part in common.parallel(work, jobs):
         report.merge(part)
+    if any(v.startswith("d8-") for v in exes):
+        report.extra["variant_restrictions"] = "8-bit-digit variant runs on curves <= 256 bit only (cost ~25x)"
     import resource
     ru = resource.getrusage(resource.RUSAGE_CHILDREN)
     report.extra["cpu_s_children"] = round(ru.ru_utime + ru.ru_stime, 1)
@@ -458,6 +464,9 @@ def work(job):
                      {"size": size, "x": bx.hex(), "y": by.hex()}, "export of %s differs from SEC 1" % inf["pname"])
                 continue
             common.part_count(part, "export_ok")
+            if not any(x.get("op") == "export" for x in part["samples"]) and P is not None:
+                part["samples"].append({"op": "export", "curve": c.name, "entry": ent, "variant": vname, "layout": form,
+                                        "point": [hex(P[0]), hex(P[1])], "bytes": gx.hex() + ("|" + gy.hex() if gy else "")})
             # re-import what the library produced, in every layout the bytes allow
             if P is None:
                 imp2.append((P, "O", gx, None))
@@ -566,12 +575,18 @@ def work(job):
                      "d=%x peer layout %s cofactor=%d" % (inf["d"], inf["form"], inf["cof"]))
             else:
                 common.part_count(part, "dh_ok")
+                if not any(x.get("op") == "dh" for x in part["samples"]):
+                    part["samples"].append({"op": "dh", "curve": c.name, "entry": ent, "variant": vname, "peer_layout": inf["form"],
+                                            "cofactor": inf["cof"], "priv_key": hex(inf["d"]), "shared": bs.hex()})
             prev = dh_seen.get(inf["pair"])
             if prev is None:
                 dh_seen[inf["pair"]] = (got, cs)
             elif prev[0] != got:
                 viol("oracle:%s:not-symmetric" % ent, cs, hex(prev[0]), hex(got), "the two parties derive different secrets")
         elif kind == "import":
+            if inf["sub"].startswith(("offcurve", "wrong-order", "y=0")) and not any(x.get("op") == "import" for x in part["samples"]):
+                part["samples"].append({"op": "import", "curve": c.name, "entry": ent, "variant": vname, "input_kind": inf["sub"],
+                                        "bytes": inf["qx"].hex() + ("|" + inf["qy"].hex() if inf["qy"] else ""), "library_rc": ob.rc})
             judge_import(part, c, order, oname, chk, ent, inf["sub"], inf["qx"], inf["qy"], ob, cs, viol, cls)
         elif kind == "sweep-sign-rnd":
             # range the entry point accepts: rnd_size >= priv_key_size (its own check); the oracle part:
@@ -599,7 +614,73 @@ def work(job):
             viol("oracle:%s:roundtrip-differs:%s" % (ent, form), cs, str(P), str(got), "import(export(P)) != P")
         else:
             common.part_count(part, "roundtrip_ok")
+    if job.get("fault"):
+        fault_plans(part, c, ci, oname, order, le, vname, vm, exe, prng, tier, viol, cls)
     return part
+
+
+def fault_plans(part, c, ci, oname, order, le, vname, vm, exe, rng, tier, viol, cls):
+    """Failpoint behind BN_RET_ON_ERR (same hook as C03): when key generation, public-key recovery or DH
+    return 0 in a run in which one internal status was forced to EOVERFLOW, the result must still be the
+    reference value - they all ignore the status of the scalar multiplication and rely on later checks."""
+    nb = ecdsa.nbytes(c)
+    top = (1 << (8 * nb)) - 1
+    E = lambda v: enc_int(v, nb, order)
+    rv = rng.range(1, top)
+    d = rng.range(1, min(c.n - 1, top))
+    d2 = rng.range(1, min(c.n - 1, top))
+    Q2 = ecdsa.mul_g(c, d2)
+    qx, qy = key_blob(ecdsa.encode(c, Q2, "compressed", order))
+    kd, kQ = ecdsa.keygen(c, rv)
+    want_kg = (kd.to_bytes(nb, order), ecdsa.encode(c, kQ, "compressed", order))
+    want_rc = ecdsa.encode(c, ecdsa.mul_g(c, d), "packed", order)
+    want_dh = ecdsa.dh(c, d, Q2, 1).to_bytes(nb, order)
+    cnt = 10 if tier == "quick" else 40
+    plans = [
+        ("keygen", "ecdsa_key_gen_" + oname, lambda a: case_keygen(ci, le, E(rv), 1, 1, nb, nb + 1, nb, arm=a)),
+        ("recover", "ecdsa_recover_pub_key_from_priv_key_" + oname, lambda a: case_recover(ci, le, E(d), 0, 0, 2 * nb + 1, 0, arm=a)),
+        ("dh", "ecdsa_dh_" + oname, lambda a: case_dh(ci, le, 1, qx, qy, E(d), nb, arm=a)),
+    ]
+    cleans = common.run_cases(exe, [pl[2](0) for pl in plans])
+    cases, cinfo = [], []
+    for (name, ent, mk), clean in zip(plans, cleans):
+        if isinstance(clean, common.Crash):
+            continue
+        N = Obs(clean).calls
+        common.part_count(part, "fault_positions_total", N)
+        for p in base._positions(N, cnt, rng):
+            cases.append(mk(p))
+            cinfo.append((name, ent, p, N))
+    res = common.run_cases(exe, cases)
+    for (name, ent, p, N), o, cs in zip(cinfo, res, cases):
+        part["evaluations"] += 1
+        if isinstance(o, common.Crash):
+            judge_crash(part, o, ent, vname, vm, cs, "curve %s %s: failpoint %d/%d in %s" % (c.name, oname, p, N, name))
+            continue
+        ob = Obs(o)
+        if not ob.fired:
+            continue
+        common.part_count(part, "fault_positions_hit")
+        cls("fault", name, ob.func, ob.rc == 0)
+        if ob.rc != 0:
+            continue
+        if name == "keygen":
+            ob.r.u32(), ob.r.u32()
+            bd, bx = ob.r.blob(), ob.r.blob()
+            good = (bd, bx) == want_kg
+        elif name == "recover":
+            ob.r.u32()
+            good = ob.r.blob() == want_rc
+        else:
+            ob.r.u32()
+            good = ob.r.blob() == want_dh
+        if good:
+            k = "fault-note:%s:correct-result-after-internal-failure" % ent
+            part["observations"][k] = part["observations"].get(k, 0) + 1
+        else:
+            base._viol(part, "fault:%s:wrong-result-after-internal-failure" % ent, vname, vm, cs, "error, or 0 with the reference value",
+                       {"rc": 0}, "curve %s %s: status %d/%d forced to EOVERFLOW in %s(); rc 0 with a wrong result" % (
+                           c.name, oname, p, N, ob.func), {"fault_k": p, "fault_func": ob.func})
 
 
 def judge_import(part, c, order, oname, chk, ent, sub, qx, qy, ob, cs, viol, cls):
